@@ -14,6 +14,9 @@ VERIF = os.path.dirname(os.path.dirname(os.path.abspath(__file__)))
 KNOWN_FILE = os.path.join(VERIF, 'known_findings.json')
 
 
+SHAPE_WORDING = re.compile(r'\b(changed|no longer|not recognised|not in the expected form|does not mirror|not found)\b')
+
+
 def norm_text(text: str) -> str:
     return re.sub(r'\s+', ' ', text).strip()
 
@@ -61,10 +64,15 @@ class Ctx:
     def rule(self, rule: str, doc: str) -> None:
         self.rule_docs[rule] = norm_text(doc)
 
-    def add(self, rule: str, construct: str, ok: bool | None, where, message: str, detail: str = '') -> bool:
+    def add(self, rule: str, construct: str, ok: bool | None, where, message: str, detail: str = '', positive: bool = False) -> bool:
         """where: (file, line) or an object with .file/.line, or (FuncInfo, ast node).
-        ok=None: the construct does not have a shape the rule understands (see shape())."""
+        ok=None: the construct does not have a shape the rule understands (see shape()).
+        positive=True: a failure is a definite contradiction of the property even though its message talks about change."""
         file, line = _where(where)
+        if ok is False and not positive and SHAPE_WORDING.search(message):
+            # the rule only knows that the construct does not look as expected ("... changed", "... no longer ..."): it has not
+            # identified anything that contradicts the property, so this is "not recognised", never an accusation
+            ok = None
         self.obligations.append(Obligation(rule, construct, bool(ok), file, line, norm_text(message), detail, recognised=ok is not None))
         return bool(ok)
 
